@@ -558,6 +558,41 @@ func checkC15(p *Program, r *Report) {
 			}
 		}
 	}
+	// round 7 (C15-agent7-m3): a buffer that Zero wipes and that a method other than Zero fills lazily (the public-key
+	// memo) is filled only where it is known to be EMPTY — a memo test that never succeeds (`len != 65` for a 33-byte
+	// key) replaces the buffer on every call, and Zero wipes only the last one
+	for _, fn := range p.Funcs {
+		if fn.Pkg != pkg || fn.Parent() != nil || fn.Signature.Recv() == nil || len(fn.Params) == 0 {
+			continue
+		}
+		recv := ssa.Value(fn.Params[0])
+		for _, b := range fn.Blocks {
+			for _, in := range b.Instrs {
+				st, ok := in.(*ssa.Store)
+				if !ok || isNilConst(st.Val) {
+					continue
+				}
+				fa, ok := st.Addr.(*ssa.FieldAddr)
+				if !ok || canonRoot(fa.X) != recv || !Z[fieldOfAddr(fa).Name()] {
+					continue
+				}
+				f := fieldOfAddr(fa)
+				known := false
+				for cur := b; cur != nil; cur = cur.Idom() {
+					id := cur.Idom()
+					if id == nil {
+						break
+					}
+					if ef2, _, empty, ok := emptinessTest(id, recv); ok && ef2 == f && (empty == cur || empty.Dominates(cur)) && len(cur.Preds) >= 1 {
+						known = true
+					}
+				}
+				nsites++
+				r.Add("C15.once", FnName(fn), "the lazily filled buffer "+f.Name()+" is stored only where it is known to be empty", st.Pos(), known,
+					"the store is not behind an emptiness test of "+f.Name()+" (len == 0 / == nil): an earlier buffer may be replaced without being wiped")
+			}
+		}
+	}
 	r.Floor("C15.fresh", 12)
 	c15overlap(p, r, pkg, kt, Z, sliceFields)
 
